@@ -348,3 +348,36 @@ package swap
 // the request amount is validated to convert to millisatoshi without overflow
 //@ entryinv getSwapOutSenderStates Started @C11,C12 amount-range: swap.SwapOutRequest.Amount <= 9223372036854775
 //@ entryinv getSwapInReceiverStates Started @C11,C12 amount-range: swap.SwapInRequest.Amount <= 9223372036854775
+
+// Bitcoin swaps: the taker's start height is set before it waits for the confirmation
+//@ restinv getSwapOutSenderStates State_SwapOutSender_AwaitTxConfirmation @C05 btc-start: swap.GetChain() == btc_chain ==> swap.StartingBlockHeight != 0
+//@ entryinv getSwapOutSenderStates State_SwapOutSender_ValidateTxAndPayClaimInvoice @C05 btc-start: swap.GetChain() == btc_chain ==> swap.StartingBlockHeight != 0
+//@ restinv getSwapInReceiverStates State_SwapInReceiver_AwaitTxConfirmation @C05 btc-start: swap.GetChain() == btc_chain ==> swap.StartingBlockHeight != 0
+//@ entryinv getSwapInReceiverStates State_SwapInReceiver_ValidateTxAndPayClaimInvoice @C05 btc-start: swap.GetChain() == btc_chain ==> swap.StartingBlockHeight != 0
+
+// C05: what the pay-site preconditions, the route builders' postconditions and the
+// watcher give, against what the property needs. conf is constrained only from
+// above (the watcher reports a confirmation while seen < start+504, seen >= conf+2).
+//@ lemma C05.cln
+//@ property C05
+//@ var start uint32
+//@ var tip uint32
+//@ var conf uint32
+//@ var seen uint32
+//@ var cltv int64
+//@ assume start != 0 && mi(tip) >= mi(start) && mi(tip) - mi(start) <= 504
+//@ assume cltv >= 0 && cltv <= 504
+//@ assume mi(conf) + 2 <= mi(seen) && mi(seen) < mi(start) + 504 && mi(seen) <= mi(tip)
+//@ show expiry-before-refund: mi(tip) + (mi(cltv) + 1) < mi(conf) + 1008
+
+//@ lemma C05.lnd
+//@ property C05
+//@ var start uint32
+//@ var tip uint32
+//@ var conf uint32
+//@ var seen uint32
+//@ var cltv int64
+//@ assume start != 0 && mi(tip) >= mi(start) && mi(tip) - mi(start) <= 504
+//@ assume cltv >= 0 && cltv <= 504
+//@ assume mi(conf) + 2 <= mi(seen) && mi(seen) < mi(start) + 504 && mi(seen) <= mi(tip)
+//@ show expiry-before-refund: mi(tip) + (mi(cltv) + 4) < mi(conf) + 1008
